@@ -404,6 +404,14 @@ class PinWorld:
             # no room: the ball bounces back onto the playfield the device captures from
             self.stat("bounced_off_full_device")
             self.ctx.probe("bounce_off_full")
+            if info.entrance_switch is not None and not info.ball_switches and \
+                    not self.m.switch_controller.is_active(info.entrance_switch) and \
+                    self.switch_busy_until.get(info.entrance_switch.name, -1.0) <= self.sim.now and \
+                    self.rt.flag("bounce_hits_entrance", 0.5):
+                # the ball touches the entrance switch of the full device before it bounces back
+                self.ctx.probe("bounce_hits_entrance_of_full_device")
+                self.switch_busy_until[info.entrance_switch.name] = self.sim.now + 0.03
+                self._pulse_switch(info.entrance_switch, 0.03)
             ball.kind, ball.dev, ball.switch, ball.dst, ball.src = "pf", info.captures_from.name, None, None, None
             ball.since = self.sim.now
             return
@@ -482,7 +490,9 @@ class PinWorld:
         if not lb:
             return False
         if self.count(devname) + self.in_transit_to(devname) >= info.capacity:
-            return False
+            # a shot at a full device: the ball bounces back (an entrance-counted device may feel it on its entrance switch)
+            if info.ball_switches or info.entrance_switch is None or not self.rt.flag("shot_at_full_device", 0.5):
+                return False
         ball = lb[pick % len(lb)]
         self.last_pf_activity = self.sim.now + 1.5      # its entry (a moment from now) is playfield activity
         ball.kind, ball.src, ball.dst = "transit", ball.dev, devname
